@@ -1738,7 +1738,7 @@ fn case(case: u64, rng: &mut Rng, rep: &mut Report, quick: bool) {
 fn main() {
     let ctx = Ctx::from_env("C06", "exploration");
     let quick = ctx.quick();
-    let n = ctx.scale(250, 4000) as u64;
+    let n = ctx.scale(250, 3000) as u64;
     let rep = run_cases(&ctx, "topk", n, |c, rng, rep| case(c, rng, rep, quick));
     simple_finish(
         &ctx,
